@@ -387,7 +387,9 @@ func (i *insertExecutor) parsePkValuesFromStatement(insertStmt *ast.InsertStmt, 
 					for i := range row {
 						r := row[i]
 						rStr, ok := r.(string)
-						if i < pkIndex && ok && !strings.EqualFold(rStr, sqlPlaceholder) {
+						// every value in front of the primary key that is not a placeholder - a string, a number,
+						// NULL or an expression - takes no argument
+						if i < pkIndex && !(ok && strings.EqualFold(rStr, sqlPlaceholder)) {
 							currentRowNotPlaceholderNumBeforePkIndex++
 						}
 					}
